@@ -50,7 +50,7 @@ def run(tier, seed, drv):
     limit = 60 if tier == "quick" else 600
     for scn in small:
         base = run_scenario(scn, bus="sync")
-        SC.check_run(scn, base, drv, res, monitors_on=(), corr=("sim",), case_extra={"bus": "sync"})
+        SC.check_run(scn, base, drv, res, monitors_on=(), corr=("inputs", "ticks"), case_extra={"bus": "sync"})
         n = 0
         for prefix, run_ in SC.dfs_orders(scn, limit):
             n += 1
@@ -76,7 +76,7 @@ def run(tier, seed, drv):
     for i, scn in enumerate(scns):
         SC.stats_into(res, scn)
         base = run_scenario(scn, bus="sync")
-        SC.check_run(scn, base, drv, res, monitors_on=(), corr=("sim",), case_extra={"bus": "sync"})
+        SC.check_run(scn, base, drv, res, monitors_on=(), corr=("inputs", "ticks"), case_extra={"bus": "sync"})
         for j in range((6 if scn.get("stims") else 3) if tier == "quick" else (12 if scn.get("stims") else 6)):
             sd = rng.randrange(1 << 30)
             run_ = run_scenario(scn, bus="held", seed=sd)
@@ -86,7 +86,7 @@ def run(tier, seed, drv):
                 res.violate(V("run-did-not-complete", str(run_["result"]), site="run"), {"scenario": scn, "bus": "held", "seed": sd})
                 continue
             if compare_obs(base, run_, f"sync vs held seed {sd}", scn, res, {"bus": "held", "held_seed": sd}):
-                SC.check_run(scn, run_, drv, res, monitors_on=(), corr=("sim",), case_extra={"bus": "held", "held_seed": sd})
+                SC.check_run(scn, run_, drv, res, monitors_on=(), corr=("inputs", "ticks"), case_extra={"bus": "held", "held_seed": sd})
     res.rule = (f"(a) flat wirings of 2-{4 if tier == 'quick' else 5} components, 2 ticks: every delivery order of the delaying bus enumerated by stateless DFS "
                 f"(cut at {limit} orders per wiring); (b) generated flat/nested simulations + corpus under the synchronous bus and 3-6 seeded delaying "
                 "schedules; per-device (time, inputs) sequences compared pairwise and with the Lean model; distinct = (scenario, schedule)")
